@@ -149,7 +149,7 @@ fn spell(sp: &Sp) -> String {
     }
 }
 
-fn source_of(idx: usize, path: &[Id], m: &Module, probe: Option<&Sp>) -> String {
+fn source_of(idx: usize, path: &[Id], m: &Module, probe: Option<&Sp>, extra: &str) -> String {
     let mut s = String::new();
     s.push_str("needs std.io\n");
     for i in &m.imports {
@@ -173,10 +173,19 @@ fn source_of(idx: usize, path: &[Id], m: &Module, probe: Option<&Sp>) -> String 
     } else if m.fault == 2 {
         writeln!(s, "fn zz_boom{}(x) {{ return 1 / x }}\nio.println(zz_boom{}(0))", idx, idx).unwrap();
     }
+    if m.defs.iter().any(|d| (READ_ZS0..READ_LET0).contains(&d.name)) {
+        // a private top-level variable with the SAME name in every module, read back through the module's own function
+        writeln!(s, "let mut zs = \"S:{}\"", fid(path)).unwrap();
+    }
     for d in &m.defs {
         let v = format!("V:{}:{}", fid(path), nm(d.name));
         let p = if d.is_pub { "pub " } else { "" };
-        if d.name >= STATE0 {
+        if d.name >= READ_LET0 {
+            let own = own_let(m).map(nm).unwrap_or_else(|| "null".to_string());
+            writeln!(s, "{}fn {}() {{ return {} }}", p, nm(d.name), own).unwrap();
+        } else if d.name >= READ_ZS0 {
+            writeln!(s, "{}fn {}() {{ return zs }}", p, nm(d.name)).unwrap();
+        } else if d.name >= STATE0 {
             if is_fn(d.name) {
                 writeln!(s, "{}fn {}() {{\n    {} = {} + 1\n    return {}\n}}", p, nm(d.name), nm(d.name + 1), nm(d.name + 1), nm(d.name + 1)).unwrap();
             } else {
@@ -192,6 +201,7 @@ fn source_of(idx: usize, path: &[Id], m: &Module, probe: Option<&Sp>) -> String 
             }
         }
     }
+    s.push_str(extra);
     if let Some(sp) = probe {
         s.push_str("io.println(\"P\")\n");
         writeln!(s, "io.println({})", spell(sp)).unwrap();
@@ -199,11 +209,44 @@ fn source_of(idx: usize, path: &[Id], m: &Module, probe: Option<&Sp>) -> String 
     s
 }
 
+/// read-back of a module's own top-level variables ("importers observe the values it produced"): definitions named
+/// 500 + 2i are pub functions returning the module's private `zs` (every module has one of that name), 600 + 2i pub
+/// functions returning the module's first own `let` of the model.  Ordinary pub definitions for the model.
+const READ_ZS0: Id = 500;
+const READ_LET0: Id = 600;
+fn own_let(m: &Module) -> Option<Id> {
+    m.defs.iter().map(|d| d.name).find(|&n| n < STATE0 && !is_fn(n))
+}
+/// the entry calls, at its end, the read-back functions of every module it imports under a qualifier by its own path
+fn entry_extra(c: &Case) -> String {
+    let mut s = String::new();
+    let entry = match c.files.iter().find(|(p, _)| *p == c.entry) {
+        Some((_, m)) => m,
+        None => return s,
+    };
+    for i in &entry.imports {
+        let q = match &i.form {
+            Form::Module => *i.path.last().unwrap(),
+            Form::Alias(a) => *a,
+            _ => continue,
+        };
+        if let Some((_, m)) = c.files.iter().find(|(p, m)| *p == i.path && m.fault == 0) {
+            for d in m.defs.iter().filter(|d| d.name >= READ_ZS0 && d.is_pub) {
+                writeln!(s, "io.println(\"G:{}:{}\")\nio.println({}.{}())", fid(&i.path), nm(d.name), nm(q), nm(d.name)).unwrap();
+            }
+        }
+    }
+    s
+}
+fn has_readback(c: &Case) -> bool {
+    c.files.iter().any(|(_, m)| m.defs.iter().any(|d| (READ_ZS0..READ_LET0).contains(&d.name)))
+}
+
 /// mutable pub state (sessions): definitions named 400 + 2i (a function) and 401 + 2i (the counter it advances) are
 /// ordinary pub definitions of the model; their bodies are a counter instead of a constant
 const STATE0: Id = 400;
 fn state_fn(m: &Module) -> Option<Id> {
-    m.defs.iter().map(|d| d.name).find(|&n| n >= STATE0 && is_fn(n))
+    m.defs.iter().map(|d| d.name).find(|&n| (STATE0..READ_ZS0).contains(&n) && is_fn(n))
 }
 
 fn file_on_disk(root: &Path, path: &[Id]) -> PathBuf {
@@ -226,7 +269,8 @@ fn materialise(root: &Path, c: &Case, probe: Option<&(Vec<Id>, Sp)>) {
             Some((pf, sp)) if pf == path => Some(sp),
             _ => None,
         };
-        std::fs::write(&f, source_of(idx, path, m, pr)).unwrap();
+        let extra = if *path == c.entry { entry_extra(c) } else { String::new() };
+        std::fs::write(&f, source_of(idx, path, m, pr, &extra)).unwrap();
     }
     for (src, tgt) in &c.links {
         let is_file = c.files.iter().any(|(p, _)| p == tgt);
@@ -297,6 +341,20 @@ struct Obs {
     trace: Vec<String>,
     detail: String,
     probes: Vec<Vec<String>>,
+    reads: Vec<String>,
+    write: Option<(u8, Vec<String>)>,
+}
+
+/// `G:<file>:<function>` followed by what the function returned
+fn reads_of(out: &str) -> Vec<String> {
+    let lines: Vec<&str> = out.lines().collect();
+    let mut vals = Vec::new();
+    for (i, l) in lines.iter().enumerate() {
+        if let Some(f) = l.strip_prefix("G:") {
+            vals.push(format!("{}={}", f, lines.get(i + 1).copied().unwrap_or("?")));
+        }
+    }
+    vals
 }
 
 fn trace_of(out: &str) -> Vec<String> {
@@ -347,16 +405,31 @@ fn observe(c: &Case, n: usize) -> Obs {
             Some(idx) => {
                 let (path, m) = &c.files[idx];
                 let f = file_on_disk(&root, path);
-                std::fs::write(&f, source_of(idx, path, m, Some(&pr.1))).unwrap();
+                let extra = if *path == c.entry { entry_extra(c) } else { String::new() };
+                std::fs::write(&f, source_of(idx, path, m, Some(&pr.1), &extra)).unwrap();
                 let (_, pout, _) = run_entry(&entry, c.opt);
                 probes.push(probe_values(&pout));
-                std::fs::write(&f, source_of(idx, path, m, None)).unwrap();
+                std::fs::write(&f, source_of(idx, path, m, None, &extra)).unwrap();
             }
             None => probes.push(Vec::new()),
         }
     }
+    // the importer assigns to the private name of the modules it imported: must not compile
+    let mut write = None;
+    if has_readback(c) && code == 0 {
+        if let Some(idx) = c.files.iter().position(|(p, _)| *p == c.entry) {
+            let (path, m) = &c.files[idx];
+            let mut extra = entry_extra(c);
+            extra.push_str("zs = \"W\"\nio.println(\"WROTE\")\n");
+            // after the write the modules read it back
+            extra.push_str(&entry_extra(c));
+            std::fs::write(&entry, source_of(idx, path, m, None, &extra)).unwrap();
+            let (wcode, wout, _) = run_entry(&entry, c.opt);
+            write = Some((wcode, reads_of(wout.split("WROTE").nth(1).unwrap_or(""))));
+        }
+    }
     let _ = std::fs::remove_dir_all(&root);
-    Obs { code, trace: trace_of(&out), detail, probes }
+    Obs { code, trace: trace_of(&out), detail, probes, reads: reads_of(&out), write }
 }
 
 // ------------------------------------------------------------------------------------------ REPL sessions
@@ -696,11 +769,24 @@ impl B {
     }
 }
 
+/// every module gets its read-back functions (see READ_ZS0)
+fn add_readback(files: &mut [(Vec<Id>, Module)]) {
+    for (i, (_, m)) in files.iter_mut().enumerate().skip(1) {
+        if m.fault != 0 {
+            continue;
+        }
+        m.defs.push(Def { name: READ_ZS0 + 2 * i as Id, is_pub: true });
+        if own_let(m).is_some() {
+            m.defs.push(Def { name: READ_LET0 + 2 * i as Id, is_pub: true });
+        }
+    }
+}
+
 /// four definitions with names unique to slot k: fn, let, fn, let with random visibility
 /// (the first is always pub so that whole-module imports grant something)
 fn defs_for(rng: &mut Rng, k: u32) -> Vec<Def> {
     // identifier spaces stay disjoint: stems 10-19 / 100+, directories 20-26, definitions 30-69 / 200+,
-    // aliases 70-79, structured manifest names / links 80-95, odd ones 96-99, generated manifest names 300+, links 399+
+    // aliases 70-79, structured manifest names / links 80-95, odd ones 96-99, generated manifest names 300+, state 400+, read-back 500+/600+, links 700+
     let base = if k < 10 { 30 + 4 * k } else { 200 + 4 * k };
     let n = 2 + rng.below(3) as u32;
     (0..n).map(|j| Def { name: base + j, is_pub: j == 0 || rng.chance(1, 2) }).collect()
@@ -901,6 +987,20 @@ fn structured(rng: &mut Rng, out: &mut Vec<Case>) {
             }
             out.push(b.done(&format!("same-name-two-dirs{}-{}", layout, order)));
         }
+    }
+    // two or three modules with a private (and a pub) top-level variable of the SAME name and different values, read
+    // back by the entry through each module's own function; the entry then assigns to the private name
+    for variant in 0..3 {
+        let mut b = B::new();
+        let nmods = if variant == 2 { 3 } else { 2 };
+        for k in 0..nmods {
+            // n41: same let name in every module; pub in variant 1
+            let defs = vec![Def { name: 30 + 4 * k as Id, is_pub: true }, Def { name: 41, is_pub: variant == 1 }];
+            b.file(vec![10 + k as Id], defs);
+            b.imp(0, vec![10 + k as Id], if k == 0 { Form::Module } else { Form::Alias(70 + k as Id) });
+        }
+        add_readback(&mut b.files);
+        out.push(b.done(&format!("own-state-same-name{}", variant)));
     }
     // one file under every spelling the loader accepts: its name, a symlink to it, through a symlinked
     // directory, through explicit manifest paths written "./x", "d/../x", "d/./y"
@@ -1281,7 +1381,7 @@ fn random_case(rng: &mut Rng, n: usize, maxfiles: u64) -> Case {
     if respell {
         // give some imports another spelling of the same file: a symlink to the file, a symlinked
         // directory on the way, or an explicit manifest path
-        let mut next_link: Id = 400;
+        let mut next_link: Id = 700;
         let mut next_hint: Id = 300;
         for i in 0..nf {
             let idir: Vec<Id> = b.files[i].0[..b.files[i].0.len() - 1].to_vec();
@@ -1345,6 +1445,9 @@ fn random_case(rng: &mut Rng, n: usize, maxfiles: u64) -> Case {
         // a module that does not compile / whose top level raises after its first statement
         let i = 1 + rng.below((nf - 1) as u64) as usize;
         b.files[i].1.fault = 1 + rng.below(2) as u8;
+    }
+    if flavour == 3 || ((flavour == 0 || flavour == 2) && rng.chance(1, 4)) {
+        add_readback(&mut b.files);
     }
     b.done(&format!("random{}-f{}{}", n, flavour, if respell { "s" } else { "" }))
 }
@@ -1547,7 +1650,7 @@ fn auto_probes(c: &mut Case, rng: &mut Rng, max: usize) {
             names.sort();
             names.dedup();
             for &n in &names {
-                if n < 30 {
+                if n < 30 || n >= STATE0 {
                     continue;
                 }
                 all.insert((fp.clone(), Sp::Bare(n)));
@@ -1661,10 +1764,12 @@ fn main() {
                     let c = &cases[n];
                     let o = observe(c, n);
                     let raw = format!(
-                        "code={};trace={};probes={};detail={}",
+                        "code={};trace={};probes={};reads={};write={};detail={}",
                         o.code,
                         o.trace.join(","),
                         o.probes.iter().map(|v| v.join("|")).collect::<Vec<_>>().join(","),
+                        o.reads.join(","),
+                        o.write.as_ref().map(|(c, r)| format!("{}/{}", c, r.join(","))).unwrap_or_default(),
                         // up to the first quoted name: which of several conflicting symbols is named
                         // depends on HashMap iteration order
                         hxlib::runner::esc(o.detail.split('\'').next().unwrap_or("")).replace(';', ",")
